@@ -31,6 +31,7 @@ struct Golden {
   std::vector<uint64_t> h;
   std::vector<int> rank;     // sites executed before boundary t
   std::vector<short> depth;
+  std::vector<int> words;    // data words at boundary t
   bool finished = false;
   bool unsafe = false;       // stopped because executing further would leave the VM's memory
   size_t len() const { return ip.size(); }
@@ -361,7 +362,7 @@ struct VmWorld : HookSink {
     set_phase(PH_VMRUN);
     VM g(prog);
     G.ip.reserve(std::min<size_t>(budget + 1, 1 << 16));
-    G.ip.push_back(0); G.h.push_back(exec_state_hash(g)); G.rank.push_back(0); G.depth.push_back(0);
+    G.ip.push_back(0); G.h.push_back(exec_state_hash(g)); G.rank.push_back(0); G.depth.push_back(0); G.words.push_back(0);
     int rank = 0;
     const auto &code = prog.code;
     for (size_t n = 0; n < budget; n++) {
@@ -377,7 +378,7 @@ struct VmWorld : HookSink {
         rank++;
         check_stop_against_reference(g, pc, rank, "stepping run");
       }
-      G.ip.push_back(VerifAccess::ip(g)); G.h.push_back(exec_state_hash(g)); G.rank.push_back(rank); G.depth.push_back((short)VerifAccess::depth(g));
+      G.ip.push_back(VerifAccess::ip(g)); G.h.push_back(exec_state_hash(g)); G.rank.push_back(rank); G.depth.push_back((short)VerifAccess::depth(g)); G.words.push_back((int)VerifAccess::data(g).size());
     }
     if (!G.finished && !G.unsafe) {
       int pc = VerifAccess::ip(g);
@@ -478,6 +479,10 @@ struct VmWorld : HookSink {
   void check_position(const char *when) {
     int ip = VerifAccess::ip(*vm);
     if (t >= G.len()) return;
+    // C19 in a session: which activations are live is decided by the execution, not by what the VM still holds
+    if ((int)VerifAccess::depth(*vm) != G.depth[t] || (int)VerifAccess::data(*vm).size() != G.words[t])
+      ctx.check(false, "C19", "memory_is_the_live_activations", std::string(when) + ": the VM holds " + std::to_string(VerifAccess::depth(*vm)) + " activations / " + std::to_string(VerifAccess::data(*vm).size()) +
+                " words where the execution has " + std::to_string(G.depth[t]) + " live activations / " + std::to_string(G.words[t]) + " words (step " + std::to_string(t) + ")");
     if (resets_done > 0 && (ip != G.ip[t] || exec_state_hash(*vm) != G.h[t]))
       ctx.check(false, "C17", "history_after_reset_as_fresh", std::string(when) + ": after " + std::to_string(resets_done) + " reset(s) the machine is not where a fresh machine is after the same " + std::to_string(t) + " instructions");
     if (ip != G.ip[t]) {
